@@ -58,7 +58,7 @@ FASTOR_INLINE Tensor<T,I,J> solve(const Tensor<T,I,I> &A, const Tensor<T,I,J> &B
     pivot_inplace(A,p);
     auto tmp(apply_pivot(A,p));
     Tensor<T,I,I> invA = inverse<InvCompType::SimpleInv>(tmp);
-    return matmul(reconstruct(invA,p),B);
+    return matmul(reconstruct_colwise(invA,p),B);
 }
 
 
